@@ -720,9 +720,43 @@ def run_built(res, target):
                                   outs['setProperty(name,value)'][:300], out[:300])
 
 
+def run_novalidate(res, name):
+    """the validation switch of the parser controls reports, not content: under every preference assignment a sheet parsed with
+    validate=False is written like the same sheet parsed with validate=True"""
+    text = SHEETS[name]
+    for prefs in BUILT_PREFS + [[('validOnly', True), ('keepAllProperties', False)], [('validOnly', True), ('keepComments', False)]]:
+        case = {'kind': 'novalidate', 'sheet': name, 'text': text, 'set': prefs}
+        res.evaluations += 1
+        res.nontrivial += 1
+        res.clauses['C06.effect'] += 1
+        outs = {}
+        for validate in (True, False):
+            guard.pristine()
+            try:
+                with guard.watchdog(WATCHDOG):
+                    with guard.collect_log():
+                        sheet = cssutils.CSSParser(fetcher=lambda u: None, validate=validate).parseString(text)
+                        if prefs == 'minified':
+                            cssutils.ser.prefs.useMinified()
+                        else:
+                            for k, val in prefs:
+                                setattr(cssutils.ser.prefs, k, val)
+                        outs[validate] = sheet.cssText.decode('utf-8')
+            except guard.Timeout:
+                outs[validate] = 'TIMEOUT'
+            except Exception as e:
+                outs[validate] = 'RAISED ' + guard.crash_site(e)
+            finally:
+                cssutils.ser.prefs.useDefaults()
+        res.outcomes.add(h64(['novalidate', name, prefs, outs[True]]))
+        if outs[False] != outs[True]:
+            res.violation('C06.effect', 'output-depends-on-the-validate-switch-of-the-parser|' + ('minified' if prefs == 'minified' else '+'.join(k for k, _ in prefs) or 'defaults'),
+                          case, outs[True][:300], outs[False][:300])
+
+
 def plan(tier):
     q = tier == 'quick'
-    shards = [['edited', k, 0, 0] for k in EDITED] + [['built', k, 0, 0] for k in BUILT_TARGETS]
+    shards = [['edited', k, 0, 0] for k in EDITED] + [['built', k, 0, 0] for k in BUILT_TARGETS] + [['novalidate', k, 0, 0] for k in SHEETS]
     np_, nm1, nm2 = len(pairs()), len(singles(MINIFIED)), len(pairs(MINIFIED))
     for name in SHEETS:
         shards.append(['single', name, 0, 0])
@@ -755,6 +789,11 @@ def run_shard(shard, tier, seed):
     if kind == 'edited':
         run_edited(res, name)
         res.sample({'kind': 'edited', 'key': name, 'text': EDITED[name][0], 'literal_spellings': True})
+        guard.pristine()
+        return res
+    if kind == 'novalidate':
+        run_novalidate(res, name)
+        res.sample({'kind': 'novalidate', 'sheet': name, 'text': SHEETS[name], 'set': [['validOnly', True]]})
         guard.pristine()
         return res
     if kind == 'built':
@@ -925,6 +964,15 @@ def replay(case, tier, seed):
         run_edited(full, case['key'])
         for sig, v in full.violations.items():
             if v['case'].get('literal_spellings') == case.get('literal_spellings'):
+                res.violations[sig] = v
+                res.violation_counts[sig] += 1
+        guard.pristine()
+        return res
+    if case.get('kind') == 'novalidate':
+        full = Result(seed)
+        run_novalidate(full, case['sheet'])
+        for sig, v in full.violations.items():
+            if v['case'].get('set') == case.get('set'):
                 res.violations[sig] = v
                 res.violation_counts[sig] += 1
         guard.pristine()
